@@ -270,11 +270,15 @@ def configs(tier, seed):
         base_lists += [
             [('V', 'V1', {}), ('R', 'R1', {}), ('L', 'L1', {}), ('W', 'w1', {}), ('Gnd', 'g', {'label': '0'})],
             [('Vac', 'V1', {'deg': True}), ('R', 'R1', {}), ('W', 'w1', {}), ('W', 'w2', {}), ('Node', 'n', {'label': 'A'})],
-            [('I', 'I1', {}), ('R', 'R1', {}), ('C', 'C1', {}), ('W', 'w1', {}), ('W', 'w2', {})],
+            [('I', 'I1', {}), ('C', 'C1', {}), ('W', 'w1', {}), ('W', 'w2', {}), ('Gnd', 'g', {'label': '0'})],
         ]
     for bl in base_lists:
         orders = list(itertools.permutations(range(len(bl))))
-        if len(orders) > 6: orders = rng.sample(orders, 6 if tier == 'quick' else 24)
+        # symbolic coordinates per list: 2 per two-terminal item, 1 per label / ground; the number of coincidence patterns grows like the
+        # Bell number (8 coordinates: 4140 paths, 9: 21147), so the number of insertion orders is budgeted by it
+        ncoord = sum(1 if it[0] in ('Gnd', 'Node') else 2 for it in bl)
+        budget = 6 if tier == 'quick' else (24 if ncoord <= 7 else 8 if ncoord == 8 else 2)
+        if len(orders) > budget: orders = rng.sample(orders, budget)
         for o in orders:
             cfgs.append({'items': [bl[i] for i in o]})
     # (4) drawings translated once while incomplete, then drawn further and translated again
